@@ -36,7 +36,7 @@ def main():
         import annet.rulebook.patching  # noqa: F401
         import annet.rulebook.deploying  # noqa: F401
         import annet.implicit  # noqa: F401
-    from vf.core.runner import Violation, load_findings, match_finding
+    from vf.core.runner import Violation, load_findings, match_finding, sut_exception_as_violation
     mod = importlib.import_module(modname)
     findings = load_findings(mod.PID)
     st = {"evaluations": 0, "undecodable": 0, "labels": {}, "nontrivial": [], "known": {}, "samples": [], "t0": time.time(), "violation": False}
@@ -61,7 +61,15 @@ def main():
     def run(case):
         st["evaluations"] += 1
         try:
-            labels = mod.check(case) or []
+            try:
+                labels = mod.check(case) or []
+            except Violation:
+                raise
+            except Exception as exc:
+                v2 = sut_exception_as_violation(exc, case)
+                if v2 is None:
+                    raise
+                raise v2 from exc
         except Violation as v:
             e = match_finding(findings, v)
             if e is not None:
